@@ -112,7 +112,17 @@ func runC05(c *Ctx) {
 			return false
 		}
 		g := staticCallee(cc)
-		return g != nil && qualFuncName(g) == "io.Copy" && bi.isChunk(cc.Args[1])
+		if g == nil {
+			return false
+		}
+		if qualFuncName(g) == "io.Copy" && bi.isChunk(cc.Args[1]) {
+			return true
+		}
+		// helper that certainly consumes LimitReader(c.text.R, <its parameter k>), called with the declared size
+		if k, ok := helperConsumes(g); ok && k < len(cc.Args) && describe(cc.Args[k]) == bi.sizeDesc {
+			return true
+		}
+		return false
 	}
 	H := []string{`builtin:len(strings.Fields(param1)) != 0`, `builtin:len(strings.Fields(param1)) <= 2`, strings.TrimSuffix(bi.sizeDesc, "#0") + "#1 == nil"}
 	res := CountPaths(f, func(in ssa.Instruction) (int, int) {
@@ -178,4 +188,45 @@ func ruleBdatAccounting(c *Ctx, bi *bdatInfo) {
 		R.Ob(c.siteKey(site, "bytesReceived += size"), c.P.InstrPos(site), describe(v) == want, "bytesReceived becomes "+describe(v)+", want "+want)
 		c.obFactMatch("bytesReceived only after successful copy", site, `^io\.Copy\(Conn\.bdatPipe,.*\)#1 == nil$`, "accounting on a path where the chunk copy did not succeed")
 	}
+}
+
+var helperConsumeCache = map[*ssa.Function]int{}
+
+// helperConsumes: g (a package helper) copies io.LimitReader(c.text.R, param k)
+// somewhere on every path to its returns; returns k.
+func helperConsumes(g *ssa.Function) (int, bool) {
+	if !inSmtp(g) || g.Blocks == nil {
+		return 0, false
+	}
+	if k, ok := helperConsumeCache[g]; ok {
+		return k, k >= 0
+	}
+	helperConsumeCache[g] = -1
+	re := regexpCache(`^io\.LimitReader\(textproto\.Reader\.R,param(\d+)\)$`)
+	res := -1
+	allInstrs(g, func(in ssa.Instruction) {
+		cc := callCommon(in)
+		if cc == nil || staticCallee(cc) == nil || qualFuncName(staticCallee(cc)) != "io.Copy" {
+			return
+		}
+		m := re.FindStringSubmatch(describe(cc.Args[1]))
+		if m == nil {
+			return
+		}
+		// must dominate every return
+		dom := true
+		for _, b := range g.Blocks {
+			if len(b.Instrs) == 0 || b == g.Recover {
+				continue
+			}
+			if _, isRet := b.Instrs[len(b.Instrs)-1].(*ssa.Return); isRet && !in.Block().Dominates(b) {
+				dom = false
+			}
+		}
+		if dom {
+			fmt.Sscanf(m[1], "%d", &res)
+		}
+	})
+	helperConsumeCache[g] = res
+	return res, res >= 0
 }
